@@ -225,6 +225,31 @@ class G:
                 "a": [name or self.name(), self.enc_entries(ents), lo, hi],
                 "out": world.new_handle()}
 
+    # ------------------------------------------------------------- shared entry lists
+    def step_mklist(self, world, kind):
+        """a Python list of entries that lives on the heap and can be handed to
+        several constructors / new(entries=...) calls (the SAME list object)"""
+        ents = self.interval_entries(6) if kind == "I" else self.point_entries(6)
+        if self.chance(0.7):  # already normalised namedtuples: float times, clean labels
+            key = "$I" if kind == "I" else "$P"
+            enc = [{key: [float(x) for x in e[:-1]] + [e[-1].strip()]} for e in ents]
+            enc.sort(key=lambda d: d[key][0])
+        else:
+            enc = self.enc_entries(ents)
+        return {"op": "env.list", "a": [enc], "out": world.new_handle(), "kind": kind}
+
+    @staticmethod
+    def list_kind(lst, default="I"):
+        return default if not lst else ("I" if len(lst[0]) == 3 else "P")
+
+    def ctor_from_list(self, world, lh, name=None):
+        lst = world.heap[lh]
+        kind = self.list_kind(lst, self.pick(["I", "P"]))
+        ents = [list(e) for e in lst]
+        lo, hi = self.span_args(ents)
+        return {"op": "IntervalTier" if kind == "I" else "PointTier", "recv": None,
+                "a": [name or self.name(), H(lh), lo, hi], "out": world.new_handle(), "tag": "E-shared-list"}
+
     def ctor_bad_interval(self, world):
         """constructor inputs that must be rejected (overlap / start >= end)"""
         ents = self.interval_entries(5)
